@@ -617,7 +617,7 @@ func c03AttrsSuite(r *Result, rng *rand.Rand, tier string) {
 // ---- suite "decl": executable declarations, end to end ----
 
 var c03GKeyStyles = []string{"conv-id", "conv-id", "conv-id-renamed", "conv-id-renamed", "conv-id-readonly", "tagged-other", "tagged-string", "composite", "manual-int",
-	"id-plus-tagged", "autoinc-tag", "dbgen-string", "embedded-id", "embedded-id", "none", "conv-id-nolower", "conv-id-named"}
+	"id-plus-tagged", "autoinc-tag", "dbgen-string", "embedded-id", "embedded-id", "none", "conv-id-nolower", "conv-id-named", "col-id"}
 
 var c03GRunTypes = []string{"int64", "int64", "int32", "uint", "string", "string", "bool", "float64", "time", "bytes", "*int64", "*string", "MyI32", "MyStr", "NullInt64", "NullString", "CUpper", "CShift", "CVPair", "json:struct", "json:[]string", "self:doc"}
 
@@ -766,6 +766,10 @@ func c03GGenRun(rng *rand.Rand, key string, f27 bool) (nodes []c03GNode, noLower
 	case "conv-id-renamed":
 		c := []string{"parcel_no", "the_key", "Key", "pk"}[rng.Intn(4)]
 		keyNodes = []c03GNode{{Name: "ID", T: intKeyT, Tag: c03GKeyCase(rng, "column") + ":" + c, Col: c, GenKey: true}}
+	case "col-id":
+		// not the NAME but the COLUMN is the conventional one
+		c := []string{"id", "ID"}[rng.Intn(2)]
+		keyNodes = []c03GNode{{Name: "Key", T: intKeyT, Tag: c03GKeyCase(rng, "column") + ":" + c, Col: c, GenKey: true}}
 	case "conv-id-readonly":
 		keyNodes = []c03GNode{{Name: "ID", T: intKeyT, Tag: "->", GenKey: true, NoC: true}}
 	case "tagged-other":
